@@ -134,7 +134,7 @@ func init() {
 		ID:          "C19",
 		Rules:       []string{"SEL-KEY", "SEL-SAME-BINDER", "SEL-BUILD", "SEL-COLLECT", "HEALTH-TABLE", "SEL-INSERT", "HANDLERS-PRESENCE"},
 		Decides:     "Decides how selected rules are bound and the healthz table: rules are looked up by the method's full name, bound by the same addRule call as annotations, built from the service config's http rules; the healthz selectors name methods of the health service with the streaming shape their verb needs, at /v1/healthz, merged into the caller's config. Also: appendHandler cannot take a present-but-empty handler entry for 'already registered' and skip binding the selected rules. Also: AddHealthz merges its literal rule list unfiltered.",
-		NotDecided:  "the iff: getRules/setRules are a string algorithm (an exact selector currently also matches longer names - value-level); health status reporting (upstream code).",
+		NotDecided:  "component splitting of names and selectors beyond the trie walk decided here (the walk itself - wildcard rules of every node passed, exact selectors only where the name ends - is decided); health status reporting (upstream code).",
 		Assumptions: commonAssumptions,
 	})
 	property(&Property{
